@@ -164,6 +164,22 @@ func (e *Engine) reachable(st *State, topLive []ssa.Value) map[int]bool {
 			markObj(id, st, seen)
 		}
 	}
+	// fork-join idiom: pending tasks and channel contents are roots too
+	for _, t := range st.tasks {
+		for _, v := range t.args {
+			markValue(v, st, seen)
+		}
+		for _, v := range t.bindings {
+			markValue(v, st, seen)
+		}
+	}
+	for id, c := range st.chans {
+		seen[id] = true
+		for _, v := range c.buf {
+			markValue(v, st, seen)
+		}
+		markValue(c.handler, st, seen)
+	}
 	for id, v := range e.gheap {
 		if _, ok := st.heap[id]; !ok {
 			seen[id] = true
@@ -186,6 +202,8 @@ func shapeOf(v Value, sb *strings.Builder) {
 		fmt.Fprintf(sb, "s%d:%d:%d:%d", x.Obj, x.Off, x.Len, x.Cap)
 	case MapVal:
 		fmt.Fprintf(sb, "m%d", x.Obj)
+	case ChanVal:
+		fmt.Fprintf(sb, "c%d", x.Obj)
 	case StringVal:
 		if x.Atom != nil {
 			sb.WriteString("a" + x.Pre + "|" + x.Suf)
@@ -278,6 +296,9 @@ func (e *Engine) mergeAtJoin(a, b *State) (*State, bool) {
 	fa, fb := a.top(), b.top()
 	if fa.fn != fb.fn || fa.block != fb.block || fa.ip != fb.ip || len(fa.defers) != len(fb.defers) {
 		return jf("position")
+	}
+	if !concSame(a, b) {
+		return jf("concurrency state differs")
 	}
 	k := 0
 	for k < len(a.pc) && k < len(b.pc) && a.pc[k] == b.pc[k] {
@@ -417,4 +438,39 @@ func mergeMeta(m, a *State, condA *Term, b *State, condB *Term) {
 	} else {
 		m.obs = nil
 	}
+}
+
+// concSame: two states may only merge when their fork-join bookkeeping (tasks, channels, wait groups) is identical.
+func concSame(a, b *State) bool {
+	if len(a.tasks) != len(b.tasks) || len(a.chans) != len(b.chans) || len(a.wgs) != len(b.wgs) || a.inTask != b.inTask {
+		return false
+	}
+	for i := range a.tasks {
+		if a.tasks[i] != b.tasks[i] {
+			return false
+		}
+	}
+	for k, v := range a.wgs {
+		if b.wgs[k] != v {
+			return false
+		}
+	}
+	for id, ca := range a.chans {
+		cb, ok := b.chans[id]
+		if !ok {
+			return false
+		}
+		if ca == cb {
+			continue
+		}
+		if ca.closed != cb.closed || ca.cap != cb.cap || len(ca.buf) != len(cb.buf) || !sameValue(ca.handler, cb.handler) {
+			return false
+		}
+		for i := range ca.buf {
+			if !sameValue(ca.buf[i], cb.buf[i]) {
+				return false
+			}
+		}
+	}
+	return true
 }
